@@ -229,6 +229,21 @@ func ruleC13(c *Check, p *Prog) {
 		}
 		c.Expect(buf != nil && bits != nil, "R-DATA", "worker_"+sc.Tag+"/load", wherePos(p, readFile),
 			"each job reads the whole file named by the job and expands it with B2bitArr", "the job does not read its file with ReadFile(filename) and expand it with B2bitArr")
+		// the pairing counts of the pipeline assume that a worker blocks only on receiving a job and on handing over its row
+		var blocking []string
+		jl.Body.Events(func(e *Event, _ []*LoopS) {
+			switch {
+			case e.Kind == "recv" && e != recv, e.Kind == "send", e.Kind == "select":
+				blocking = append(blocking, e.String(p))
+			case e.Kind == "call" && (strings.HasPrefix(e.Callee, "(*sync.") || strings.HasPrefix(e.Callee, "sync.")) && !strings.HasSuffix(e.Callee, ".Done") && !strings.HasSuffix(e.Callee, ".Unlock") && !strings.HasSuffix(e.Callee, ".Add"):
+				blocking = append(blocking, e.String(p))
+			case e.Kind == "call" && strings.HasPrefix(e.Callee, "time.Sleep"):
+				blocking = append(blocking, e.String(p))
+			}
+		})
+		c.Expect(len(blocking) == 0, "R-PIPE", "worker_"+sc.Tag+"/nonblocking", wwhere,
+			"between receiving a job and handing over its row the worker performs no channel operation, lock acquisition or wait (nothing else can block it for any worker count n >= 1)",
+			"potentially blocking operation in the worker that the pipeline's pairing argument does not account for: "+trunc(strings.Join(blocking, " | "), 400))
 		// row: go closure sending &R{Base(file), PArr, QArr}
 		gos := events(jl.Body, func(e *Event) bool { return e.Kind == "go" })
 		var pT, qT *Term
